@@ -391,6 +391,7 @@ class Snapshot:
         self.refs = ts
         self.values = {k: v.detach().clone() for k, v in ts.items()}
         self.versions = {k: v._version for k, v in ts.items()}
+        self.grad_flags = {k: (bool(v.requires_grad), isinstance(v, torch.nn.Parameter)) for k, v in ts.items()}
         self.attrs = plain_attrs_of(obj) if isinstance(obj, Element) else {}
 
     def diff(self, obj) -> Optional[tuple]:
@@ -406,6 +407,10 @@ class Snapshot:
             if not torch.equal(torch.nan_to_num(v.detach(), nan=1.2345e300 if v.dtype == F64 else 1.2345e30),
                                torch.nan_to_num(old, nan=1.2345e300 if v.dtype == F64 else 1.2345e30)):
                 return (k, "value", f"{k}: {_short(old.tolist())} -> {_short(v.tolist())}")
+        for k, v in now.items():
+            g = (bool(v.requires_grad), isinstance(v, torch.nn.Parameter))
+            if g != self.grad_flags[k]:
+                return (k, "requires_grad", f"{k}: (requires_grad, is nn.Parameter) {self.grad_flags[k]} -> {g}")
         for k, v in now.items():
             if v is self.refs[k] and v._version != self.versions[k]:
                 return (k, "version", f"{k}: written in place ({self.versions[k]} -> {v._version} on `_version`), value unchanged")
